@@ -21,6 +21,7 @@ def tau(t):
 
 def gen_cases(ctx):
     r = ctx.rng
+    rot = Rot(r)
     cases = []
     for ind in LASTN + LASTN1:
         periods = [1, 2, 3, 4, 6] + r.sample(range(7, 65), 1 if not ctx.thorough else 5)
@@ -33,14 +34,14 @@ def gen_cases(ctx):
                 if bars:
                     # rep 1: a grid prefix (exactly equal neighbouring typical prices with volume: neutral bars entering the ring)
                     pre = bar_stream(r, npre, "grid" if rep % 3 == 1 else r.choice(["walk", "segments", "gaps"]), p=p)
-                    suf = bar_stream(r, nsuf, r.choice(["walk", "segments", "gaps", "grid"]), p=p)
+                    suf = bar_stream(r, nsuf, rot.pick((ind, "b"), ["walk", "segments", "gaps", "grid"]), p=p)
                     if rep % 2 == 0:
                         pre = [tuple(v * 1e6 for v in b[:4]) + (b[4],) if r.random() < 0.2 else b for b in pre]
                     mk = lambda s_, b: ("b", s_) + b
                 else:
                     pos = ind in ("ROC", "ER", "FAST")
                     pre = scalar_stream(r, npre, None, p=p, positive=pos)
-                    suf = scalar_stream(r, nsuf, r.choice(["walk", "ties", "uniform", "periodic", "segments", "flatafter"]), p=p, positive=True)
+                    suf = scalar_stream(r, nsuf, rot.pick((ind, "n"), ["walk", "ties", "uniform", "periodic", "segments", "flatafter"]), p=p, positive=True)
                     if rep % 2 == 0:
                         pre = [x * 1e6 if r.random() < 0.2 else x for x in pre]
                     mk = lambda s_, x: ("n", s_, x)
